@@ -6,8 +6,82 @@
    over-approximates it); the hash-string caches are assumed transparent.  Tied by X-seeds: fresh processes under many
    PYTHONHASHSEED values. *)
 From Coq Require Import List Bool Arith NArith String.
-From J2M.Model Require Import Base Emit.
+From Coq Require Import Permutation.
+From J2M.Model Require Import Base Registry Optimize Layout Emit.
 From J2M.Gen Require IterSites.
+From J2M.Proofs Require Import OrderIndep.
 Import ListNotations.
 Theorem C06_set_sites_reviewed : List.length IterSites.set_sites = 40 /\ IterSites.n_sites = 237.
 Proof. split; reflexivity. Qed.
+
+(* ---- the places that iterate a set do not let the arrival order through (Proofs/OrderIndep.v) ---- *)
+Theorem C06_set_of_strs_perm :
+  forall l l' : list str, Permutation l l' -> set_of_strs l = set_of_strs l'.
+Proof. exact OrderIndep.set_of_strs_perm. Qed.
+
+Theorem C06_set_of_strs_ext :
+  forall l l' : list str, same_elts l l' -> set_of_strs l = set_of_strs l'.
+Proof. exact OrderIndep.set_of_strs_ext. Qed.
+
+Theorem C06_distinct_words_perm :
+  forall ws ws' : list str, Permutation ws ws' -> distinct_words ws = distinct_words ws'.
+Proof. exact OrderIndep.distinct_words_perm. Qed.
+
+Theorem C06_distinct_words_spec :
+  forall (ws : list str) (w : str),
+       In w (distinct_words ws) <-> In w ws /\ (forall o : str, In o ws -> o <> w -> is_substr o w = false).
+Proof. exact OrderIndep.distinct_words_spec. Qed.
+
+Theorem C06_compile_imports_perm :
+  forall i i' : list (str * option (list str)),
+       Permutation i i' -> compile_imports i = compile_imports i'.
+Proof. exact OrderIndep.compile_imports_perm. Qed.
+
+Theorem C06_resolve_perm_replaces :
+  forall (R R' : list (pseudo * pseudo)) (fuel : nat) (qs qs' : list pseudo),
+       Permutation R R' ->
+       Permutation qs qs' -> forall p : pseudo, In p (resolve R fuel qs) <-> In p (resolve R' fuel qs').
+Proof. exact OrderIndep.resolve_perm_replaces. Qed.
+
+Theorem C06_resolve_singleton_perm :
+  forall (R R' : list (pseudo * pseudo)) (qs qs' : list pseudo) (p : pseudo),
+       Permutation R R' ->
+       Permutation qs qs' ->
+       resolve R (S (length qs)) qs = p :: nil <-> resolve R' (S (length qs')) qs' = p :: nil.
+Proof. exact OrderIndep.resolve_singleton_perm. Qed.
+
+Theorem C06_parents_of_perm :
+  forall g g' : graph,
+       Permutation (ps g) (ps g') ->
+       ms g = ms g' -> forall m p : N, In p (parents_of g m) <-> In p (parents_of g' m).
+Proof. exact OrderIndep.parents_of_perm. Qed.
+
+Theorem C06_min_parent_ext :
+  forall l l' : list N,
+       same_elts l l' -> (forall x : N, In x l -> idx_ok x) -> min_parent l = min_parent l'.
+Proof. exact OrderIndep.min_parent_ext. Qed.
+
+Theorem C06_extract_root_spec :
+  forall (g : graph) (m r : N), In r (extract_root g m) <-> is_root_of g m r.
+Proof. exact OrderIndep.extract_root_spec. Qed.
+
+Theorem C06_extract_root_perm :
+  forall g g' : graph,
+       Permutation (ps g) (ps g') ->
+       ms g = ms g' -> forall m r : N, In r (extract_root g m) <-> In r (extract_root g' m).
+Proof. exact OrderIndep.extract_root_perm. Qed.
+
+Theorem C06_compose_flat_perm :
+  forall g g' : graph,
+       Permutation (ps g) (ps g') -> parents_ok g -> ms g = ms g' -> compose_flat g = compose_flat g'.
+Proof. exact OrderIndep.compose_flat_perm. Qed.
+
+Theorem C06_compose_nested_perm :
+  forall g g' : graph,
+       Permutation (ps g) (ps g') -> parents_ok g -> ms g = ms g' -> compose_nested g = compose_nested g'.
+Proof. exact OrderIndep.compose_nested_perm. Qed.
+
+Theorem C06_min_parent_order_dep :
+  min_parent (cexA :: cexB :: nil) = cexA /\ min_parent (cexB :: cexA :: nil) = cexB.
+Proof. exact OrderIndep.min_parent_order_dep. Qed.
+
